@@ -355,4 +355,392 @@ theorem getSymbol_decoded {t : SymTab} {symB strB : Bytes} (h : Wf t symB strB) 
     · simp only [hic, if_false, pure, Except.pure]
 
 end SymTab
+
+namespace SymTab
+
+theorem len1 {l : Bytes} (h : l.length = 1) : ∃ a, l = [a] := by
+  match l, h with | [a], _ => exact ⟨a, rfl⟩
+theorem len2 {l : Bytes} (h : l.length = 2) : ∃ a b, l = [a, b] := by
+  match l, h with | [a, b], _ => exact ⟨a, b, rfl⟩
+theorem len4 {l : Bytes} (h : l.length = 4) : ∃ a b c d, l = [a, b, c, d] := by
+  match l, h with | [a, b, c, d], _ => exact ⟨a, b, c, d, rfl⟩
+theorem len8 {l : Bytes} (h : l.length = 8) : ∃ a b c d e f g i, l = [a, b, c, d, e, f, g, i] := by
+  match l, h with | [a, b, c, d, e, f, g, i], _ => exact ⟨a, b, c, d, e, f, g, i, rfl⟩
+
+theorem encodeInt_mod (e : Enc) (n x : Nat) (h : n = 1 ∨ n = 2 ∨ n = 4 ∨ n = 8) :
+    encodeInt e n (x % 2 ^ (8 * n)) = encodeInt e n x := by
+  rw [← wrField_eq e n _ h, ← wrField_eq e n x h]
+  unfold wrField
+  rw [Nat.mod_mod]
+
+/-- the host struct filled member by member = the gABI encoding of the record -/
+theorem entryBytes_eq (c : Cfg) (name : BitVec 32) (value size : BitVec 64) (info other : BitVec 8)
+    (shndx : BitVec 16) :
+    entryBytes c name value size info other shndx =
+      Spec.encodeSym c { name := name.toNat, value := value.toNat, size := size.toNat,
+                         info := info.toNat, other := other.toNat, shndx := shndx.toNat } := by
+  unfold entryBytes Spec.encodeSym
+  cases hc : c.cls <;> simp only
+  · simp only [Elf32_Sym.st_name_off, Elf32_Sym.st_name_w, Elf32_Sym.st_value_off, Elf32_Sym.st_value_w,
+      Elf32_Sym.st_size_off, Elf32_Sym.st_size_w, Elf32_Sym.st_info_off, Elf32_Sym.st_info_w,
+      Elf32_Sym.st_other_off, Elf32_Sym.st_other_w, Elf32_Sym.st_shndx_off, Elf32_Sym.st_shndx_w,
+      sizeof_Elf32_Sym, sym32_add_value_trunc, sym32_add_size_trunc, BitVec.toNat_setWidth]
+    rw [wrField_eq _ 4 _ (by simp), wrField_eq _ 4 _ (by simp), wrField_eq _ 4 _ (by simp),
+      wrField_eq _ 1 _ (by simp), wrField_eq _ 1 _ (by simp), wrField_eq _ 2 _ (by simp)]
+    rw [encodeInt_mod c.enc 4 value.toNat (by simp), encodeInt_mod c.enc 4 size.toNat (by simp)]
+    obtain ⟨a0, a1, a2, a3, ha⟩ := len4 (encodeInt_length c.enc 4 name.toNat)
+    obtain ⟨b0, b1, b2, b3, hb⟩ := len4 (encodeInt_length c.enc 4 value.toNat)
+    obtain ⟨c0, c1, c2, c3, hc'⟩ := len4 (encodeInt_length c.enc 4 size.toNat)
+    obtain ⟨d0, hd⟩ := len1 (encodeInt_length c.enc 1 info.toNat)
+    obtain ⟨e0, he⟩ := len1 (encodeInt_length c.enc 1 other.toNat)
+    obtain ⟨f0, f1, hf⟩ := len2 (encodeInt_length c.enc 2 shndx.toNat)
+    rw [ha, hb, hc', hd, he, hf]
+    rfl
+  · simp only [Elf64_Sym.st_name_off, Elf64_Sym.st_name_w, Elf64_Sym.st_value_off, Elf64_Sym.st_value_w,
+      Elf64_Sym.st_size_off, Elf64_Sym.st_size_w, Elf64_Sym.st_info_off, Elf64_Sym.st_info_w,
+      Elf64_Sym.st_other_off, Elf64_Sym.st_other_w, Elf64_Sym.st_shndx_off, Elf64_Sym.st_shndx_w,
+      sizeof_Elf64_Sym, sym64_add_value_trunc, sym64_add_size_trunc]
+    rw [wrField_eq _ 4 _ (by simp), wrField_eq _ 8 _ (by simp), wrField_eq _ 8 _ (by simp),
+      wrField_eq _ 1 _ (by simp), wrField_eq _ 1 _ (by simp), wrField_eq _ 2 _ (by simp)]
+    obtain ⟨a0, a1, a2, a3, ha⟩ := len4 (encodeInt_length c.enc 4 name.toNat)
+    obtain ⟨b0, b1, b2, b3, b4, b5, b6, b7, hb⟩ := len8 (encodeInt_length c.enc 8 value.toNat)
+    obtain ⟨c0, c1, c2, c3, c4, c5, c6, c7, hc'⟩ := len8 (encodeInt_length c.enc 8 size.toNat)
+    obtain ⟨d0, hd⟩ := len1 (encodeInt_length c.enc 1 info.toNat)
+    obtain ⟨e0, he⟩ := len1 (encodeInt_length c.enc 1 other.toNat)
+    obtain ⟨f0, f1, hf⟩ := len2 (encodeInt_length c.enc 2 shndx.toNat)
+    rw [ha, hb, hc', hd, he, hf]
+    rfl
+end SymTab
+
+/-! ### header fields across `append_data` -/
+
+/-- the fields `get_data()` never touches -/
+theorem getData_frame (b : SecBuf) :
+    b.getData.entSize = b.entSize ∧ b.getData.link = b.link ∧ b.getData.translatorEmpty = b.translatorEmpty ∧
+    b.getData.streamSize = b.streamSize ∧ b.getData.size = b.size ∧ b.getData.cls = b.cls ∧
+    b.getData.stype = b.stype := by
+  unfold SecBuf.getData SecBuf.loadData
+  cases b.fileData <;> simp only <;> (repeat' split) <;> simp_all
+
+theorem insertFinish_frame (b : SecBuf) (ns n : BitVec 64) :
+    (b.insertFinish ns n).entSize = b.entSize ∧ (b.insertFinish ns n).link = b.link ∧
+    (b.insertFinish ns n).translatorEmpty = b.translatorEmpty ∧
+    (b.insertFinish ns n).streamSize = (if b.translatorEmpty then b.streamSize + n else b.streamSize) := by
+  unfold SecBuf.insertFinish SecBuf.setSize
+  cases b.cls <;> simp only <;> split <;> simp_all
+
+/-- `insert_data` either leaves the header alone or finishes with `set_size` + stream-size update -/
+theorem insertBody_frame (b : SecBuf) (pos : BitVec 64) (raw : Bytes) (b' : SecBuf)
+    (h : b.insertBody pos raw = .ok b') :
+    b'.entSize = b.entSize ∧ b'.link = b.link ∧ b'.translatorEmpty = b.translatorEmpty ∧
+    (b' = b ∨ b'.streamSize = (if b.translatorEmpty then b.streamSize + BitVec.ofNat 64 raw.length else b.streamSize)) := by
+  unfold SecBuf.insertBody at h
+  simp only [s32_pos_gt, s32_ovf_size, s32_new_size, s32_fits, ite_self] at h
+  split at h
+  · cases h; exact ⟨rfl, rfl, rfl, Or.inl rfl⟩
+  split at h
+  · cases h; exact ⟨rfl, rfl, rfl, Or.inl rfl⟩
+  split at h
+  · cases hd : b.insertInPlace pos.toNat raw with
+    | error e => simp [hd, bind, Except.bind] at h
+    | ok d =>
+      simp only [hd, bind, Except.bind, pure, Except.pure, Except.ok.injEq] at h
+      subst h
+      obtain ⟨f1, f2, f3, f4⟩ := insertFinish_frame { b with data := d } (sec64_insert_new_size b.size (BitVec.ofNat 64 raw.length)) (BitVec.ofNat 64 raw.length)
+      exact ⟨f1, f2, f3, Or.inr f4⟩
+  · split at h
+    · cases h; exact ⟨rfl, rfl, rfl, Or.inl rfl⟩
+    · rename_i nds _
+      cases hd : b.insertGrow pos.toNat raw nds.toNat with
+      | error e => simp [hd, bind, Except.bind] at h
+      | ok d =>
+        simp only [hd, bind, Except.bind, pure, Except.pure, Except.ok.injEq] at h
+        subst h
+        obtain ⟨f1, f2, f3, f4⟩ := insertFinish_frame { b with data := d, dataSize := nds } (sec64_insert_new_size b.size (BitVec.ofNat 64 raw.length)) (BitVec.ofNat 64 raw.length)
+        exact ⟨f1, f2, f3, Or.inr f4⟩
+
+theorem appendData_frame (b : SecBuf) (raw : Bytes) (b' : SecBuf) (h : b.appendData raw = .ok b') :
+    b'.entSize = b.entSize ∧ b'.link = b.link ∧ b'.translatorEmpty = b.translatorEmpty ∧
+    (b'.size = b.size ∨
+     b'.streamSize = (if b.translatorEmpty then b.streamSize + BitVec.ofNat 64 raw.length else b.streamSize)) := by
+  unfold SecBuf.appendData SecBuf.insertData at h
+  obtain ⟨g1, g2, g3, g4, g5, _, _⟩ := getData_frame b
+  simp only [s32_not_nobits, s32_make_resident, ite_self] at h
+  split at h
+  · cases h; exact ⟨rfl, rfl, rfl, Or.inl rfl⟩
+  · split at h
+    · obtain ⟨f1, f2, f3, f4⟩ := insertBody_frame _ _ _ _ h
+      refine ⟨by rw [f1, g1], by rw [f2, g2], by rw [f3, g3], ?_⟩
+      rcases f4 with e | e
+      · left; rw [e, g5]
+      · right; rw [e, g3, g4]
+    · obtain ⟨f1, f2, f3, f4⟩ := insertBody_frame _ _ _ _ h
+      refine ⟨f1, f2, f3, ?_⟩
+      rcases f4 with e | e
+      · left; rw [e]
+      · right; exact e
+
+theorem bv_se1 : (BitVec.signExtend 64 1#32).toNat = 1 := by
+  simp only [BitVec.signExtend, BitVec.toInt, BitVec.toNat_ofNat, Nat.reducePow, Nat.reduceMod]
+  simp
+theorem bv_se0 : (BitVec.signExtend 64 0#32) = 0#64 := by
+  apply BitVec.eq_of_toNat_eq
+  simp only [BitVec.signExtend, BitVec.toInt, BitVec.toNat_ofNat, Nat.reducePow, Nat.reduceMod]
+  simp
+theorem bv_m2 : (BitVec.setWidth 64 (4294967295#32 - 1#32)).toNat = 4294967294 := by
+  simp only [BitVec.toNat_setWidth, BitVec.toNat_sub, BitVec.toNat_ofNat, Nat.reducePow, Nat.reduceMod, Nat.reduceSub, Nat.reduceAdd]
+theorem bv_m1 : (4294967295#32).toNat = 4294967295 := by
+  simp only [BitVec.toNat_ofNat, Nat.reducePow, Nat.reduceMod]
+theorem bv_p1 : ((0:BitVec 32) + 1).toNat = 1 := by
+  simp only [BitVec.toNat_add, Nat.reducePow]; rfl
+
+/-- a section of a created file that has only been appended to -/
+structure Grown (s : SecBuf) (c : Bytes) : Prop where
+  inv : s.Inv
+  content : s.content = c
+  te : s.translatorEmpty = true
+  ss : s.streamSize = s.size
+
+theorem Grown.size {s : SecBuf} {c : Bytes} (h : Grown s c) : s.size.toNat = c.length := by
+  rw [← h.content]; exact (C07.content_length h.inv).symm
+
+theorem bound_of_lt (cls : Cls) {k : Nat} (h : k < 4294967296) : SecBuf.Bound cls k := by
+  cases cls <;> simp [SecBuf.Bound] <;> omega
+
+theorem Grown.append {s : SecBuf} {c : Bytes} (h : Grown s c) (raw : Bytes) (hraw : 0 < raw.length)
+    (hb : c.length + raw.length < 4294967296) :
+    ∃ s', s.appendData raw = .ok s' ∧ Grown s' (c ++ raw) ∧ s'.cls = s.cls ∧ s'.entSize = s.entSize ∧
+      s'.link = s.link := by
+  obtain ⟨s', e, r, cl, v⟩ := C07.append_refines s h.inv raw (by rw [h.content]; exact bound_of_lt _ hb)
+  obtain ⟨f1, f2, f3, f4⟩ := appendData_frame s raw s' e
+  have hs := h.size
+  have hs' : s'.size.toNat = c.length + raw.length := by
+    rw [← C07.content_length (Or.inl r), v, h.content]; simp
+  refine ⟨s', e, ⟨Or.inl r, by rw [v, h.content], by rw [f3, h.te], ?_⟩, cl, f1, f2⟩
+  rcases f4 with e4 | e4
+  · exfalso; rw [e4] at hs'; omega
+  · rw [e4, h.te, h.ss]
+    apply BitVec.eq_of_toNat_eq
+    simp only [if_true, BitVec.toNat_add, BitVec.toNat_ofNat, Nat.reducePow]
+    omega
+
+theorem grown_fresh (cls : Cls) (ty : BitVec 32) (hty : ty ≠ BitVec.ofNat 32 SHT_NOBITS) :
+    Grown (SecBuf.fresh cls ty) [] :=
+  ⟨(C07.fresh_inv cls ty hty).1, (C07.fresh_inv cls ty hty).2, rfl, rfl⟩
+
+namespace Spec
+
+/-- total length of the NUL-terminated names -/
+def strTotal : List Bytes → Nat
+  | [] => 0
+  | n :: ns => n.length + 1 + strTotal ns
+
+theorem strTotal_append (a b : List Bytes) : strTotal (a ++ b) = strTotal a + strTotal b := by
+  induction a with
+  | nil => simp [strTotal]
+  | cons x xs ih => simp [strTotal, ih]; omega
+
+theorem flatten_nul_length (ns : List Bytes) : ((ns.map (· ++ [0])).flatten).length = strTotal ns := by
+  induction ns with
+  | nil => rfl
+  | cons x xs ih => simp [strTotal, ih]; omega
+
+theorem strtabBytes_length (ns : List Bytes) (h : ns ≠ []) : (strtabBytes ns).length = 1 + strTotal ns := by
+  cases ns with
+  | nil => exact absurd rfl h
+  | cons x xs => simp only [strtabBytes, List.length_cons, flatten_nul_length]; omega
+
+/-- where the next string goes: after the leading NUL of a new table, else at the end -/
+def nextOff (ns : List Bytes) : Nat := 1 + strTotal ns
+
+theorem strtabBytes_snoc (ns : List Bytes) (n : Bytes) :
+    strtabBytes (ns ++ [n]) = (if ns = [] then [0] else strtabBytes ns) ++ (n ++ [0]) := by
+  cases ns with
+  | nil => simp [strtabBytes]
+  | cons x xs => simp [strtabBytes]
+
+theorem strtabOffsets_snoc (start : Nat) (ns : List Bytes) (n : Bytes) :
+    strtabOffsets start (ns ++ [n]) = strtabOffsets start ns ++ [start + strTotal ns] := by
+  induction ns generalizing start with
+  | nil => simp [strtabOffsets, strTotal]
+  | cons x xs ih => simp [strtabOffsets, strTotal, ih]; omega
+
+theorem strtabOffsets_length (start : Nat) (ns : List Bytes) : (strtabOffsets start ns).length = ns.length := by
+  induction ns generalizing start with
+  | nil => rfl
+  | cons x xs ih => simp [strtabOffsets, ih]
+
+end Spec
+
+namespace SymTab
+
+
+theorem addStringAt_step {s : SecBuf} {c : Bytes} (h : Grown s c) (pos : BitVec 32) (str : Bytes)
+    (hpos : pos.toNat = c.length) (hfit : c.length + str.length + 2 < 4294967296) :
+    ∃ s', addStringAt s pos str = .ok (s', pos) ∧ Grown s' (c ++ (str ++ [0])) ∧ s'.cls = s.cls := by
+  obtain ⟨s2, e2, g2, c2, _, _⟩ := h.append (str ++ [0]) (by simp) (by simp; omega)
+  have hlen : (BitVec.ofNat 64 str.length).toNat = str.length := by
+    simp only [BitVec.toNat_ofNat, Nat.reducePow]; omega
+  have htl : str_add_too_long (BitVec.ofNat 64 str.length) = false := by
+    simp only [str_add_too_long, BitVec.ult, hlen, decide_eq_false_iff_not]
+    have := bv_m2
+    omega
+  have has : (str_add_append_size (BitVec.ofNat 64 str.length)).toNat = str.length + 1 := by
+    have h1 := bv_se1
+    simp only [str_add_append_size, BitVec.toNat_setWidth, BitVec.toNat_add, hlen, h1, Nat.reducePow]
+    omega
+  have hov : str_add_overflow (str_add_append_size (BitVec.ofNat 64 str.length)) pos = false := by
+    have hp := pos.isLt
+    unfold str_add_overflow
+    simp only [BitVec.ult, decide_eq_false_iff_not]
+    rw [BitVec.toNat_sub, has, bv_m1]
+    simp only [Nat.reducePow] at hp ⊢
+    clear has htl hlen
+    omega
+  have hrd : rdRange "add_string/str" (some (str ++ [0])) 0 (str.length + 1) = .ok (str ++ [0]) := by
+    rw [rdRange_some_ok (by simp)]
+    have := slice_all (str ++ [0]); simp only [List.length_append, List.length_cons, List.length_nil] at this
+    rw [this]
+  refine ⟨s2, ?_, g2, c2⟩
+  unfold addStringAt
+  simp only [htl, Bool.false_eq_true, if_false, hov, has, hrd, e2, bind, Except.bind, pure, Except.pure]
+
+/-- `add_string` on a table that holds `names`: appends `str` + NUL (after seeding the leading NUL)
+    and returns its offset -/
+theorem addString_step {s : SecBuf} {names : List Bytes} (h : Grown s (Spec.strtabBytes names)) (str : Bytes)
+    (hfit : Spec.strTotal names + str.length + 3 < 4294967296) :
+    ∃ s', addString s str = .ok (s', BitVec.ofNat 32 (Spec.nextOff names)) ∧
+      Grown s' (Spec.strtabBytes (names ++ [str])) ∧ s'.cls = s.cls := by
+  have hsz := h.size
+  have hlt := s.size.isLt
+  unfold addString
+  rw [Spec.strtabBytes_snoc]
+  by_cases hn : names = []
+  · subst hn
+    simp only [Spec.strtabBytes, List.length_nil] at hsz
+    have hs0 : s.size = 0 := BitVec.eq_of_toNat_eq (by simpa using hsz)
+    have hpos : str_add_pos s.size = 0 := by rw [hs0]; rfl
+    obtain ⟨s1, e1, g1, c1, _, _⟩ := h.append [0] (by simp) (by simp [Spec.strtabBytes])
+    simp only [Spec.strtabBytes, List.nil_append] at g1
+    obtain ⟨s2, e2, g2, c2⟩ := addStringAt_step g1 (0 + 1) str (by rw [bv_p1]; rfl) (by simp [Spec.strTotal] at hfit ⊢; omega)
+    refine ⟨s2, ?_, by simpa using g2, by rw [c2, c1]⟩
+    simp only [hpos, str_add_seed_cond, beq_self_eq_true, if_true, e1, bind, Except.bind, e2]
+    rfl
+  · have hl := Spec.strtabBytes_length names hn
+    have hpos : (str_add_pos s.size).toNat = (Spec.strtabBytes names).length := by
+      simp only [str_add_pos, BitVec.toNat_setWidth, Nat.reducePow]; omega
+    have hne : str_add_seed_cond (str_add_pos s.size) = false := by
+      simp only [str_add_seed_cond, beq_eq_false_iff_ne, ne_eq]
+      intro e; rw [e] at hpos; simp at hpos; omega
+    obtain ⟨s2, e2, g2, c2⟩ := addStringAt_step h (str_add_pos s.size) str hpos (by omega)
+    refine ⟨s2, ?_, by simpa [hn] using g2, c2⟩
+    simp only [hne, Bool.false_eq_true, if_false, e2]
+    congr 2
+    apply BitVec.eq_of_toNat_eq
+    rw [hpos, hl]
+    simp only [Spec.nextOff, BitVec.toNat_ofNat, Nat.reducePow]
+    omega
+
+
+theorem add_ret_eq (cls : Cls) (sz : BitVec 64) (k : Nat) (hk : sz.toNat = (k + 1) * Spec.symSize cls)
+    (hlt : sz.toNat < 4294967296) :
+    (if (cls == .c32) = true then sym32_add_ret sz else sym64_add_ret sz) = BitVec.ofNat 32 k := by
+  have h1 := bv_se1
+  cases cls <;> simp only [Spec.symSize] at hk <;>
+  · apply BitVec.eq_of_toNat_eq
+    simp only [beq_self_eq_true, if_true, sym32_add_ret, sym64_add_ret, sizeof_Elf32_Sym, sizeof_Elf64_Sym,
+      BitVec.toNat_setWidth, BitVec.toNat_sub, BitVec.toNat_udiv, BitVec.toNat_ofNat, h1, Nat.reducePow, Nat.reduceMod]
+    try simp only [show (Cls.c64 == Cls.c32) = false from rfl, Bool.false_eq_true, if_false, sym64_add_ret, sizeof_Elf64_Sym,
+      BitVec.toNat_setWidth, BitVec.toNat_sub, BitVec.toNat_udiv, BitVec.toNat_ofNat, h1, Nat.reducePow, Nat.reduceMod]
+    clear h1
+    omega
+
+theorem genericAdd_step {t : SymTab} {symB : Bytes} (hg : Grown t.sym symB) (hcls : t.sym.cls = t.cfg.cls)
+    (k : Nat) (hk : symB.length = k * Spec.symSize t.cfg.cls) (hfit : symB.length + 24 < 4294967296)
+    (name : BitVec 32) (value size : BitVec 64) (info other : BitVec 8) (shndx : BitVec 16) :
+    ∃ s', t.genericAddSymbol name value size info other shndx = .ok ({ t with sym := s' }, BitVec.ofNat 32 k) ∧
+      Grown s' (symB ++ Spec.encodeSym t.cfg ⟨name.toNat, value.toNat, size.toNat, info.toNat, other.toNat, shndx.toNat⟩) ∧
+      s'.cls = t.sym.cls ∧ s'.entSize = t.sym.entSize := by
+  have hel := Spec.encodeSym_length t.cfg ⟨name.toNat, value.toNat, size.toNat, info.toNat, other.toNat, shndx.toNat⟩
+  have hsz : Spec.symSize t.cfg.cls ≤ 24 ∧ 0 < Spec.symSize t.cfg.cls := by cases t.cfg.cls <;> simp [Spec.symSize]
+  obtain ⟨s', e, g, c, en, _⟩ := hg.append (Spec.encodeSym t.cfg ⟨name.toNat, value.toNat, size.toNat, info.toNat, other.toNat, shndx.toNat⟩)
+    (by rw [hel]; exact hsz.2) (by rw [hel]; omega)
+  have hlen : (if t.c32 = true then sym32_add_len else sym64_add_len).toNat = Spec.symSize t.cfg.cls := by
+    unfold c32
+    cases t.cfg.cls <;> simp [sym32_add_len, sym64_add_len, sizeof_Elf32_Sym, sizeof_Elf64_Sym, Spec.symSize]
+  have hrd : rdRange "add_symbol/entry" (some (Spec.encodeSym t.cfg ⟨name.toNat, value.toNat, size.toNat, info.toNat, other.toNat, shndx.toNat⟩))
+      0 (Spec.symSize t.cfg.cls) = .ok (Spec.encodeSym t.cfg ⟨name.toNat, value.toNat, size.toNat, info.toNat, other.toNat, shndx.toNat⟩) := by
+    rw [← hel, rdRange_some_ok (by simp), slice_all]
+  have hret : (if t.c32 = true then sym32_add_ret s'.size else sym64_add_ret s'.size) = BitVec.ofNat 32 k := by
+    unfold c32
+    apply add_ret_eq
+    · rw [g.size]; simp only [List.length_append, hel, hk, Nat.add_mul]; omega
+    · rw [g.size]; simp only [List.length_append, hel]; omega
+  refine ⟨s', ?_, g, c, en⟩
+  simp only [genericAddSymbol, entryBytes_eq, hlen, hrd, bind, Except.bind, e, pure, Except.pure, hret]
+
+
+/-- symbol section contents for the records `recs` (after the null symbol); empty before any add -/
+def tableBytes (cfg : Cfg) (recs : List Spec.SymRec) : Bytes :=
+  if recs = [] then [] else Spec.encodeTable cfg (Spec.nullSym :: recs)
+
+theorem encodeTable_length (cfg : Cfg) (l : List Spec.SymRec) :
+    (Spec.encodeTable cfg l).length = l.length * Spec.symSize cfg.cls :=
+  flatten_block_length _ _ l (fun x _ => Spec.encodeSym_length cfg x)
+
+theorem encodeTable_snoc (cfg : Cfg) (l : List Spec.SymRec) (r : Spec.SymRec) :
+    Spec.encodeTable cfg (l ++ [r]) = Spec.encodeTable cfg l ++ Spec.encodeSym cfg r := by
+  simp [Spec.encodeTable]
+
+theorem tableBytes_length (cfg : Cfg) (recs : List Spec.SymRec) (h : recs ≠ []) :
+    (tableBytes cfg recs).length = (recs.length + 1) * Spec.symSize cfg.cls := by
+  simp only [tableBytes, h, if_false, encodeTable_length, List.length_cons]
+
+/-- `add_symbol(name, value, size, info, other, shndx)` on a table holding `recs`: the null symbol
+    is written first if the section is empty, the new record goes to the end, its index is returned -/
+theorem addSymbol_step {t : SymTab} {recs : List Spec.SymRec} (hg : Grown t.sym (tableBytes t.cfg recs))
+    (hcls : t.sym.cls = t.cfg.cls) (hfit : 24 * (recs.length + 2) < 4294967296)
+    (name : BitVec 32) (value size : BitVec 64) (info other : BitVec 8) (shndx : BitVec 16) :
+    ∃ s', t.addSymbol name value size info other shndx = .ok ({ t with sym := s' }, BitVec.ofNat 32 (recs.length + 1)) ∧
+      Grown s' (tableBytes t.cfg (recs ++ [⟨name.toNat, value.toNat, size.toNat, info.toNat, other.toNat, shndx.toNat⟩])) ∧
+      s'.cls = t.sym.cls ∧ s'.entSize = t.sym.entSize := by
+  have hsz : Spec.symSize t.cfg.cls ≤ 24 ∧ 0 < Spec.symSize t.cfg.cls := by cases t.cfg.cls <;> simp [Spec.symSize]
+  have hsize := hg.size
+  unfold addSymbol
+  by_cases hr : recs = []
+  · subst hr
+    simp only [tableBytes, if_true, List.length_nil] at hg hsize
+    have hs0 : t.sym.size = 0 := BitVec.eq_of_toNat_eq (by simpa using hsize)
+    have hseed : sym_add_seed_cond t.sym.size = true := by rw [hs0]; simp [sym_add_seed_cond, bv_se0]
+    obtain ⟨s1, e1, g1, c1, n1⟩ := genericAdd_step hg hcls 0 (by simp) (by simp) 0 0 0 0 0 0
+    have hnull : Spec.encodeSym t.cfg ⟨(0 : BitVec 32).toNat, (0 : BitVec 64).toNat, (0 : BitVec 64).toNat,
+        (0 : BitVec 8).toNat, (0 : BitVec 8).toNat, (0 : BitVec 16).toNat⟩ = Spec.encodeSym t.cfg Spec.nullSym := rfl
+    rw [hnull, List.nil_append] at g1
+    have hl1 := Spec.encodeSym_length t.cfg Spec.nullSym
+    obtain ⟨s2, e2, g2, c2, n2⟩ := genericAdd_step (t := { t with sym := s1 }) g1 (by rw [c1]; exact hcls) 1
+      (by rw [hl1]; simp) (by rw [hl1]; omega) name value size info other shndx
+    refine ⟨s2, ?_, ?_, by rw [c2, c1], by rw [n2, n1]⟩
+    · simp only [hseed, if_true, e1, bind, Except.bind, pure, Except.pure]
+      exact e2
+    · simpa [tableBytes, Spec.encodeTable] using g2
+  · have hl := tableBytes_length t.cfg recs hr
+    have hne : sym_add_seed_cond t.sym.size = false := by
+      simp only [sym_add_seed_cond, bv_se0, beq_eq_false_iff_ne, ne_eq]
+      intro e; rw [e] at hsize; simp at hsize; rw [hl] at hsize
+      have : 0 < (recs.length + 1) * Spec.symSize t.cfg.cls := Nat.mul_pos (by omega) hsz.2
+      omega
+    have hle : (recs.length + 1) * Spec.symSize t.cfg.cls ≤ (recs.length + 1) * 24 := Nat.mul_le_mul_left _ hsz.1
+    obtain ⟨s2, e2, g2, c2, n2⟩ := genericAdd_step hg hcls (recs.length + 1) hl (by rw [hl]; omega)
+      name value size info other shndx
+    refine ⟨s2, ?_, ?_, c2, n2⟩
+    · simp only [hne, Bool.false_eq_true, if_false, bind, Except.bind, pure, Except.pure]
+      exact e2
+    · have : tableBytes t.cfg (recs ++ [⟨name.toNat, value.toNat, size.toNat, info.toNat, other.toNat, shndx.toNat⟩])
+          = tableBytes t.cfg recs ++ Spec.encodeSym t.cfg ⟨name.toNat, value.toNat, size.toNat, info.toNat, other.toNat, shndx.toNat⟩ := by
+        simp only [tableBytes, hr, if_false, List.append_eq_nil_iff, List.cons_ne_nil, and_false]
+        rw [← List.cons_append, encodeTable_snoc]
+      rw [this]; exact g2
+
+
+end SymTab
 end ElfioVerif
